@@ -15,11 +15,23 @@ qfrc_gravcomp, qfrc_passive of mj_forward):
   gravsum gx gy gz n (mass gc)*n            -> fx fy fz     sum of the compensation forces of n bodies (body order)
   psum spring damper [gravcomp]             -> qfrc_passive entry
   effdamp b p0 p1 mode n (ad a0 a1 gear)*n  -> b' p0' p1'   damping coefficients incl. mj_actuatorDamping (mode 0 none, 1 single, 2 scan)
+gating (dS dD dG are the bits mjDSBL_SPRING / mjDSBL_DAMPER / mjDSBL_GRAVITY of opt.disableflags as 0 | 1):
+  gcflags n gc*n                            -> ngravcomp flg_gravcomp          (setFixed, all bodies incl. the world)
+  gcstage dS dD dG gx gy gz n (mass gc)*n   -> passiveHas entry has (none | fx fy fz)*(n-1)   (mj_gravcomp, bodies 1..n-1)
+  g:jspring dS dD ... / g:freelin dS dD ... / g:ball dS dD ... / g:damper dS dD ... / g:tendon dS dD ... / g:psum dS dD ...
+                                            the ops above under the switches of mj_passive / mj_springdamper
+The driver answers and flushes line by line (checks/c29.py keeps one process for the whole run).
 -/
 open MjProof MjProof.Driver MjProof.Passive
 
 def fb := floatBits
 def p3 (v : Float × Float × Float) : String := s!"{fb v.1} {fb v.2.1} {fb v.2.2}"
+
+def pairs2 : List Float → List (Float × Float)
+  | a :: c :: r => (a, c) :: pairs2 r
+  | _ => []
+
+def flag? (s : String) : Option Bool := if s == "0" then some false else if s == "1" then some true else none
 
 def step (line : String) : String :=
   match words line with
@@ -82,6 +94,53 @@ def stepN (line : String) : String :=
           | _, acc => acc
         p3 (go xs (0.0, 0.0, 0.0))
     | _, _, _, _, _ => "bad-op"
+  | "gcflags" :: n :: rest =>
+    match n.toNat?, rest.mapM floatOfBits? with
+    | some n, some gc => if gc.length ≠ n then "bad-op" else s!"{ngravcomp gc} {if flgGravcomp gc then 1 else 0}"
+    | _, _ => "bad-op"
+  | "gcstage" :: dS :: dD :: dG :: gx :: gy :: gz :: n :: rest =>
+    match flag? dS, flag? dD, flag? dG, floatOfBits? gx, floatOfBits? gy, floatOfBits? gz, n.toNat?, rest.mapM floatOfBits? with
+    | some dS, some dD, some dG, some gx, some gy, some gz, some n, some xs =>
+      if xs.length ≠ 2 * n then "bad-op"
+      else
+        let bodies := pairs2 xs
+        let flg := flgGravcomp (bodies.map (fun b => b.2))
+        let g := (gx, gy, gz)
+        let st := gravcompStage flg dG g bodies
+        let b01 (b : Bool) : String := if b then "1" else "0"
+        let fs := st.2.map (fun f => match f with | none => "none" | some v => p3 v)
+        " ".intercalate ([b01 (passiveHasGravcomp dS dD dG g bodies), b01 (gravcompEntry flg dG g), b01 st.1] ++ fs)
+    | _, _, _, _, _, _, _, _ => "bad-op"
+  | op :: dS :: dD :: args =>
+    if !op.startsWith "g:" then step line else
+    match flag? dS, flag? dD, args.mapM floatOfBits? with
+    | some dS, some dD, some xs =>
+      match op, xs with
+      | "g:jspring", [k, p0, p1, q, qs] => fb (jointSpringGated dS dD k p0 p1 q qs)
+      | "g:freelin", [k, p0, p1, px, py, pz, sx, sy, sz] =>
+        p3 (freeLinSpringGated dS dD k p0 p1 (px, py, pz) (sx, sy, sz) (0.0, 0.0, 0.0))
+      | "g:ball", [k, p0, p1, q0, q1, q2, q3, s0, s1, s2, s3] =>
+        p3 (ballSpringGated dS dD k p0 p1 (q0, q1, q2, q3) (s0, s1, s2, s3) (0.0, 0.0, 0.0))
+      | "g:damper", [b, p0, p1, v] => fb (dofDamperGated dS dD b p0 p1 v)
+      | "g:tendon", [k, p0, p1, b, d0, d1, len, lo, hi, v] =>
+        match tendonForcesGated dS dD k p0 p1 b d0 d1 len lo hi v with
+        | none => "none"
+        | some (fs, fd) => s!"{fb fs} {fb fd}"
+      | "g:psum", [s, d] => fb (passiveSumGated dS dD s d none)
+      | "g:psum", [s, d, g] => fb (passiveSumGated dS dD s d (some g))
+      | _, _ => "bad-op"
+    | _, _, _ => "bad-op"
   | _ => step line
 
-def main : IO Unit := runStateless stepN
+/-- one line in, one line out, flushed after every line -/
+partial def serve (hin hout : IO.FS.Stream) : IO Unit := do
+  let line ← hin.getLine
+  if line.isEmpty then
+    hout.flush
+  else
+    hout.putStrLn (stepN line)
+    hout.flush
+    serve hin hout
+
+def main : IO Unit := do
+  serve (← IO.getStdin) (← IO.getStdout)
